@@ -11,7 +11,7 @@
 From Coq Require Import List ZArith NArith Bool Sorted Permutation.
 From Storage Require Import Base.Bytes Query.Compare Query.CompareProofs Query.Paging Query.PagingProofs
   Query.ScanUnique Query.ScanUniqueProofs Query.ScanSort Query.ScanSortProofs
-  Query.ChildScan Query.ChildScanProofs.
+  Query.ChildScan Query.ChildScanProofs Query.Provider Query.ProviderProofs.
 Import ListNotations.
 Open Scope Z_scope.
 
@@ -218,3 +218,50 @@ Theorem compiled_query_rerun_exact : forall (sv : store_view) (present : row -> 
   run_prog sv present rows q ops = spec_prog sv present rows q ops.
 Proof. exact rerun_exact_lemma. Qed.
 Print Assumptions compiled_query_rerun_exact.
+
+(* ---- QueryWithCursorC over a cursor provider (Query/Provider.v) ------------------------------------------
+   [cand] is the raw list of candidate ids as the provider's sources name them (the members of several index
+   values, the insertions into a tree set, the two sides of a union ...): any order, repetitions allowed.  The
+   provider's cursor is a set cursor over them, so the scan walks [provider_rows cand rows].  The specification
+   [provider_query_spec]: the specified answer for "is a candidate and matches" over the entities of the store.
+
+   QueryWithCursorC over a provider - whichever strategy NewScanner selects, and the sorting scan on its own -
+   answers exactly as specified, through any store of a chain, for every int64 skip / limit *)
+Theorem provider_query_exact : forall (sv : store_view) (present : row -> bool) (cand : list str)
+    (matches : row -> bool) (fs : list sort_field) (p : paging) (rows : list row),
+  wf_paging p -> id_sorted rows -> rows_ok rows -> Z.of_nat (length rows) <= max_int64 ->
+  provider_query_ids sv present cand matches fs p rows = provider_query_spec sv present cand matches fs p rows /\
+  provider_scan_sorting sv present cand matches fs p rows = provider_query_spec sv present cand matches fs p rows.
+Proof. exact provider_query_exact_lemma. Qed.
+Print Assumptions provider_query_exact.
+
+(* the answer depends on the SET of candidate ids only - no hypotheses: two candidate lists with the same members, in
+   any order and with any repetitions, give the same ids in the same order and the same count *)
+Theorem provider_answer_depends_on_candidate_set_only : forall (sv : store_view) (present : row -> bool)
+    (c1 c2 : list str) (matches : row -> bool) (fs : list sort_field) (p : paging) (rows : list row),
+  (forall id, In id c1 <-> In id c2) ->
+  provider_query_ids sv present c1 matches fs p rows = provider_query_ids sv present c2 matches fs p rows /\
+  provider_scan_sorting sv present c1 matches fs p rows = provider_scan_sorting sv present c2 matches fs p rows /\
+  provider_query_spec sv present c1 matches fs p rows = provider_query_spec sv present c2 matches fs p rows.
+Proof. exact provider_set_only_lemma. Qed.
+Print Assumptions provider_answer_depends_on_candidate_set_only.
+
+(* the count is the number of distinct matching candidates among the entities of the store (the rows counted have
+   pairwise different ids), whatever the sort specification (scan strategy), skip and limit are *)
+Theorem provider_count_distinct_candidates : forall (sv : store_view) (present : row -> bool) (cand : list str)
+    (matches : row -> bool) (fs fs' : list sort_field) (p p' : paging) (rows : list row),
+  wf_paging p -> wf_paging p' -> id_sorted rows -> rows_ok rows -> Z.of_nat (length rows) <= max_int64 ->
+  snd (provider_query_ids sv present cand matches fs p rows)
+    = Z.of_nat (length (filter (fun r => cand_mem cand r && matches r) (store_rows sv present rows))) /\
+  snd (provider_query_ids sv present cand matches fs p rows) = snd (provider_query_ids sv present cand matches fs' p' rows) /\
+  NoDup (map r_id (filter (fun r => cand_mem cand r && matches r) (store_rows sv present rows))).
+Proof. exact provider_count_lemma. Qed.
+Print Assumptions provider_count_distinct_candidates.
+
+(* the entities bucket is one provider among the others: candidates that include every row change nothing *)
+Theorem bucket_is_a_provider : forall (sv : store_view) (present : row -> bool) (cand : list str)
+    (matches : row -> bool) (fs : list sort_field) (p : paging) (rows : list row),
+  (forall r, In r rows -> In (r_id r) cand) ->
+  provider_query_ids sv present cand matches fs p rows = child_query_ids sv present matches fs p rows.
+Proof. exact provider_all_rows_lemma. Qed.
+Print Assumptions bucket_is_a_provider.
